@@ -145,6 +145,7 @@ fn get_mut<'a>(v: &'a mut Value, path: &[String]) -> Option<&'a mut Value> {
 const VOCAB: [&str; 14] = ["mappings", "from", "to", "repeat", "absorbing", "row", "letters", "Special", "keys", "delay_ms", "interval_ms", "Normal", "Disabled", "no_repeat_keys"];
 
 fn odd_string(rng: &mut Rng) -> Value {
+  if rng.chance(1, 8) { let mut s = stuffing(rng); if rng.chance(1, 2) { s.insert(0, '@'); } return json!(s); }
   let opts: Vec<String> = vec![
     "".into(), "@".into(), "@undefined".into(), "@shift".into(), "a".into(), "capslock".into(), "KEY_A".into(), "NOSUCHKEY".into(), "é".into(), "A ".into(),
     "1".into(), "10".into(), "-1".into(), "LEFTSHIFT".into(), "A".into(), "CAPSLOCK".into(), "\u{0}".into(), "𝔸".into(), "Q".into(), "`".into(), "q".into(), "Normal".into(),
@@ -161,7 +162,29 @@ fn odd_number(rng: &mut Rng) -> Value {
   }
 }
 
+// long strings of multi-byte characters (error messages quote the input; byte offsets inside them are not char offsets)
+fn stuffing(rng: &mut Rng) -> String {
+  let alphabet: Vec<char> = "ÜüßéñĳЖ中文😀🎹\u{1F1E9}\u{200d}aZ ".chars().collect();
+  let n = rng.range(1, 140);
+  (0..n).map(|_| *rng.pick(&alphabet)).collect()
+}
+
+// a row mapping whose repeat letters outnumber its letters, both stuffed (one of the parser's rejection paths that
+// formats the whole mapping into its message)
+fn stuffed_row_mapping(rng: &mut Rng) -> Value {
+  let to = stuffing(rng);
+  let mut rep = to.clone();
+  for _ in 0..rng.range(0, 3) { rep.push(*rng.pick(&['x', 'Ü', '😀'])); }
+  let mut from = vec![];
+  for _ in 0..rng.below(3) { from.push(json!(*rng.pick(&["@shift", "@symbol", "LEFTSHIFT", "@süß", "CAPSLOCK"]))); }
+  from.push(json!({ "row": *rng.pick(&["Q", "A", "Z", "1", "`", "q"]) }));
+  json!({ "mappings": [
+    { "from": "LEFTSHIFT", "to": "@shift" }, { "from": "CAPSLOCK", "to": "@symbol" }, { "from": "RIGHTALT", "to": "@süß" },
+    { "from": from, "to": { "letters": to }, "repeat": { "Special": { "keys": { "letters": rep }, "delay_ms": rng.below(2000), "interval_ms": 30 } } } ] })
+}
+
 fn odd_letters(rng: &mut Rng) -> Value {
+  if rng.chance(1, 3) { return json!({ "letters": stuffing(rng) }); }
   let opts: Vec<String> = vec!["".into(), "abcdefghijklmnopqrstuvwxyz".into(), "é".into(), "a\tb".into(), "a\u{0}".into(), " ".repeat(30), "ß∂ƒ".into(), "AAAAAAAAAAAAAA".into(), "\u{1F600}".into(), "a b".into(), "\"\\".into()];
   json!({ "letters": rng.pick(&opts).clone() })
 }
@@ -283,7 +306,9 @@ pub fn run(opts: &Opts) -> i32 {
         if rng.chance(1, 4) { load_and_drive(&serde_json::to_vec(&v).unwrap(), "generated_program", &ctx, &mut rng, &mut out); }
         else { let m = mutate(&v, &mut rng); load_and_drive(&serde_json::to_vec(&m).unwrap(), "mutated_program", &ctx, &mut rng, &mut out); }
       },
-      7..=8 => { let v = random_json(&mut rng); load_and_drive(&serde_json::to_vec(&v).unwrap(), "arbitrary_json", &ctx, &mut rng, &mut out); },
+      7 => { let v = random_json(&mut rng); load_and_drive(&serde_json::to_vec(&v).unwrap(), "arbitrary_json", &ctx, &mut rng, &mut out); },
+      8 => { if rng.chance(1, 2) { let v = random_json(&mut rng); load_and_drive(&serde_json::to_vec(&v).unwrap(), "arbitrary_json", &ctx, &mut rng, &mut out); }
+             else { let v = stuffed_row_mapping(&mut rng); let v = if rng.chance(1, 3) { mutate(&v, &mut rng) } else { v }; load_and_drive(&serde_json::to_vec(&v).unwrap(), "stuffed_row_mapping", &ctx, &mut rng, &mut out); } },
       _ => { let b = raw_bytes(&mut rng, &valid_bytes); load_and_drive(&b, "raw_bytes", &ctx, &mut rng, &mut out); }
     }
     if out.wants_sample() && i % 997 == 5 {
